@@ -63,7 +63,7 @@ where
         let a: &GGLWE<&[u8]> = &a.to_ref();
         let b: &GGSWPrepared<&[u8], BE> = &b.to_ref();
 
-        for row in 0..res.dnum().into() {
+        for row in 0..res.dnum().min(a.dnum()).into() {
             for col in 0..res.rank_in().into() {
                 self.glwe_external_product(&mut res.at_mut(row, col), &a.at(row, col), b, scratch);
             }
